@@ -69,7 +69,7 @@ CHECKS = {
         "design": "DESIGN.md section 5 C09",
     },
     "C10": {
-        "text": "Codec theorems in Coq over a byte-level model written from the documented layout: little-endian round trips, CRC-32C chaining and table=bitwise definition (finite check lifted), parse.serialize round trip for v1 and v2/v3 record heads (whole extent and head block), value offset, token range/non-zero/idempotent self-verifying stamp, retirement-marker round trip and marker/record/zero disjointness. Tie on every run: (i) every pure format function vs the Coq codec through hook H3, (ii) whole files after flush() decoded by the model as an independent reader must equal the live contents with clear journal and exact counters, (iii) a golden corpus of v1/v2/v3 files from the pinned release must be decoded by the model to their manifests, be read back by the working tree, and keep their format when written to. Codec and recovery are linked by a theorem: one iteration of the byte-level scan loop at the head of an extent image produced by the write path's encoder (serialize, pad, stamp; v1-v3) accepts it, advances exactly over it and indexes exactly the record's key, timestamp, expiry, value length and sector; newest-timestamp-wins holds at the step (an older generation is queued for retirement, a newer one replaces the entry); completed marker runs and zero blocks are stepped over; and any quiescent data area (records with pairwise distinct keys, completed marker runs, free blocks in any order) is scanned without error to exactly those records, with nothing queued for retirement and a free-space manager that holds exactly the blocks no record covers.",
+        "text": "Codec theorems in Coq over a byte-level model written from the documented layout: little-endian round trips, CRC-32C chaining and table=bitwise definition (finite check lifted), parse.serialize round trip for v1 and v2/v3 record heads (whole extent and head block), value offset, token range/non-zero/idempotent self-verifying stamp, retirement-marker round trip and marker/record/zero disjointness. Tie on every run: (i) every pure format function vs the Coq codec through hook H3, (ii) whole files after flush() decoded by the model as an independent reader must equal the live contents with clear journal and exact counters, (iii) a golden corpus of v1/v2/v3 files from the pinned release must be decoded by the model to their manifests, be read back by the working tree, and keep their format when written to. Codec and recovery are linked by a theorem: one iteration of the byte-level scan loop at the head of an extent image produced by the write path's encoder (serialize, pad, stamp; v1-v3) accepts it, advances exactly over it and indexes exactly the record's key, timestamp, expiry, value length and sector; newest-timestamp-wins holds at the step (an older generation is queued for retirement, a newer one replaces the entry); completed marker runs and zero blocks are stepped over; and any quiescent data area (records with pairwise distinct keys, completed marker runs, free blocks in any order) is scanned without error to exactly those records, with nothing queued for retirement and a free-space manager that holds exactly the blocks no record covers; the metadata block round-trips through its encoder and decoder (checksum and complement included), and open_image on a whole file with such a metadata block, a clear journal and a quiescent data area opens it, leaves it unchanged and reports exactly the records and the partition.",
         "note": TRUST + " Not proved: the whole-file bridge (decode of an encoded abstract disk) -- it is checked by execution (ii, iii).",
         "design": "DESIGN.md section 5 C10",
     },
